@@ -10,7 +10,7 @@ TRUSTED = [
 ]
 
 Q_STORY = dict(MaxStories=4, MaxSrc=3, MaxCarried=3)
-T_STORY = dict(MaxStories=5, MaxSrc=4, MaxCarried=3, Layouts=["plain", "between", "trailing", "both", "nt1", "nt2", "blank"])
+T_STORY = dict(MaxStories=5, MaxSrc=4, MaxCarried=3, Layouts=["plain", "between", "trailing", "both", "nt1", "nt2", "blank", "attr"])
 Q_ITEM = dict(MaxItems=4, MaxSrc=3, MaxCarried=2)
 T_ITEM = dict(MaxItems=5, MaxSrc=4, MaxCarried=3)
 
@@ -32,15 +32,35 @@ def fam(tier, story=None, item=None, other=None, theorems=("story", "item", "oth
 
 def merge_property(families_fn, assumptions):
     def run(report, tier, seed):
+        import time
+        t0 = time.time()
+        stage = {}
         cov = pipeline.run_merge_check(report, families_fn(tier), seed, tier)
+        stage["transitions"] = round(time.time() - t0, 1)
+        t0 = time.time()
         # binding C: every `ro += msg` the repository's own 196 tests perform, recorded by the tracer, judged by TLC
         suite = pipeline.run_suite_trace(report, seed)
         cov["suite_trace"] = {k: v for k, v in suite.items() if k != "samples"}
         cov["traces_validated_against_impl"] += suite["traces_validated_against_impl"]
         cov["states"] += suite["states"]
         # beyond the exhaustive bound: seeded random transitions (up to 12 stories, 20 ids, lists up to 6), same TLC judge
+        # "... and the same from every state reached by a prior merge history": behaviours of MosLife on live objects
+        life = pipeline.run_life_check(report, lite_plans(tier), seed, tier)
+        cov["histories"] = {k: v for k, v in life.items() if k != "samples"}
+        cov["traces_validated_against_impl"] += life["traces_validated_against_impl"]
+        cov["states"] += life["states"]
+        if report.prop == "C06":
+            # warnings of each `ro += msg` inside a non-strict collection merge (the caller records with "always")
+            from . import collection
+            coll = collection.run(report, tier, seed, (), step_props=("C06",))
+            cov["collection_steps"] = {k: v for k, v in coll.items() if k != "samples"}
+            cov["traces_validated_against_impl"] += coll.get("merge_steps_judged", 0)
+        stage["histories"] = round(time.time() - t0, 1)
+        t0 = time.time()
         from . import randomdrv
         rnd = randomdrv.run(report, seed, 500 if tier == "quick" else 10000)
+        stage["random"] = round(time.time() - t0, 1)
+        cov["stage_wall_s"] = stage
         cov["random_beyond_bound"] = rnd
         cov["traces_validated_against_impl"] += rnd["random_transitions"]
         cov["states"] += rnd["states"]
@@ -65,11 +85,18 @@ A_COMMON = [
 def life_plans(tier):
     if tier == "quick":
         return [dict(name="alpha2", mode="alphabet", objs=[1], depth=2),
-                dict(name="alpha3", mode="alphabet", objs=[1], depth=3, cap=1500),
+                dict(name="alpha3", mode="alphabet", objs=[1], depth=3, cap=2500),
                 dict(name="random", mode="random", objs=[1, 2], depth=8, num=40, cap=400)]
     return [dict(name="alpha3", mode="alphabet", objs=[1], depth=3),
             dict(name="alpha4", mode="alphabet", objs=[1], depth=4, cap=20000),
             dict(name="random", mode="random", objs=[1, 2], depth=12, num=400, cap=5000)]
+
+
+def lite_plans(tier):
+    if tier == "quick":
+        return [dict(name="alpha2", mode="alphabet", objs=[1], depth=2),
+                dict(name="random", mode="random", objs=[1, 2], depth=8, num=25, cap=200)]
+    return life_plans(tier)
 
 
 def life_property(assumptions):
@@ -204,9 +231,10 @@ def c12(report, tier, seed):
 
 
 def c07(report, tier, seed):
-    from . import collection
+    from . import collection, cli
     covs = [("life", pipeline.run_life_check(report, life_plans(tier), seed, tier)),
-            ("collection", collection.run(report, tier, seed, ("coll_completed",), step_props=("C07",)))]
+            ("collection", collection.run(report, tier, seed, ("coll_completed",), step_props=("C07",))),
+            ("cli", cli.run(report, tier, seed, want=("cli_marks",)))]     # "(completed)" exactly when applicable
     cov = combine(covs)
     cov["trusted_base"] = TRUSTED
     return report.finish(cov, A_LIFE + A_COLL)
